@@ -9,7 +9,7 @@ pickle connections in interleaved segments.
 from . import ingest as ig
 
 PROP = 'C12'
-QUICK = (64, 80, 50.0)
+QUICK = (256, 80, 60.0)
 THOROUGH = (1600, 150, 840.0)
 boot, execute = ig.boot, ig.execute
 SHRINK_LISTS, SHRINK_DICTS = ig.SHRINK_LISTS, ig.SHRINK_DICTS
